@@ -5,6 +5,7 @@ import os
 from . import core
 
 HOOK_COMMITS = ["e03d988"]
+FIX_COMMITS = ["7c26a95", "7fa90f0", "f0c087a", "e99193e"]
 
 BASELINE_OFF = ("cd /repo && GOFLAGS=-mod=mod go test -json -vet=off -count=1 -timeout 25m ./...")
 
@@ -25,6 +26,26 @@ CHECKS = {
             "Exhaustive within the stated alphabet and length: TLC proves on the design that resolution is canonical/idempotent, '.'/'' neutral, '..' undoes a push, and that the call sets stay under the root; it then enumerates every name (<=4 segments quick, <=5 thorough, 6-symbol alphabet, relative and absolute, 4 roots) and the harness records every call that reaches the underlying file system for all 12 wrapper operations (Rename in both argument positions against 5 partner names) and for compiles whose import statement spells the name; TLC checks Confined / Works (spelling-independent resolution) / Refused for every event.",
             "POSIX paths only; the recording afero.Fs is assumed to see all file access (true for everything that goes through the afero.Fs handed to loader).",
             "DESIGN.md §6 C18"),
+    "C02": ("model_checking",
+            "TLA+ spec Frontend.tla (declaration machine: Step(scope, declaration) -> model facts) model-checked by TLC; TLC-generated programs rendered to Sysl text, compiled by the real parser, the whole module projected to facts and compared with the specification's model by TLC (FrontendTrace.tla)",
+            "The intended meaning of every declaration kind is written once, in TLA+, from the language documentation; TLC checks the scope discipline, replay determinism and merge independence on all programs of a small alphabet, generates random well-formed programs over the full shape tables (every documented primitive x size x optional x set/sequence x local/field/cross-app reference, every statement and block kind nested, REST trees, events/subscriptions, enums, unions, aliases, annotations, tags), and judges the real compiler's model fact-for-fact: nothing declared missing or altered, nothing undeclared (including an 'other' bucket for anything the projector cannot classify).",
+            "Trusts the harness renderer and projector; constructs outside the modelled vocabulary (views, facades, in-place tuples, collectors) are not generated; undocumented-but-implied constraint values are not compared.",
+            "DESIGN.md §6 C02"),
+    "C03": ("model_checking",
+            "TLA+ spec Lexer.tla (indent stack machine) with scale/tab/blank/comment invariance model-checked by TLC over all line skeletons; the real SyslLexer's INDENT/DEDENT stream validated against it by TLC on enumerated skeletons; layout variants of TLC-generated programs and TLC-enumerated compositions of layout transformations on the repository's corpus compiled and compared (FrontendTrace.tla Variant action)",
+            "Three layers: (1) TLC proves on the specification that the token stream depends only on the order relation among code-line widths (all texts of <=4/5 lines, widths 0..6); (2) the hand-written lexer is driven over every enumerated skeleton (incl. mixed space/tab leads, blank, whitespace-only and comment lines) and its structural token stream must equal the specification's; (3) every generated program is rendered in 6 further layouts (canonical, blank-heavy, comment-heavy, per-line tab substitution, scaled) and every corpus file is transformed by TLC-enumerated compositions (scale 1..4 x tabs x blank x comment) and must be accepted iff the original is and compile to the same model without locations.",
+            "Comments are inserted at declaration boundaries only (lines where the base compile records the start of an application, type, field, endpoint, statement or view header); lines that begin inside a multi-line token are left alone.",
+            "DESIGN.md §6 C03"),
+    "C04": ("model_checking",
+            "Frontend.tla model-checked by TLC (MergeIndependent: swapping commuting top-level blocks never changes the model); TLC-generated multi-block programs with TLC-chosen assignments of blocks to files compiled in every partition; each partition judged against the specification by TLC and all partitions of one program compared with the joined form",
+            "The specification keys application and type members by name, so partition independence is a theorem TLC checks on the design; on the implementation every generated program (3-6 top-level blocks, re-opened applications and types, REST trees, events) is compiled joined and in up to 6 TLC-chosen partitions over three files (star and chain imports) and every result must equal the specification's model and the joined form.",
+            "Whole top-level blocks are moved (plus fields of re-opened tuples/tables); statement lists of one endpoint and event endpoints fed by subscriptions are order-sensitive by definition and keep their relative order.",
+            "DESIGN.md §6 C04"),
+    "C08": ("model_checking",
+            "Frontend.tla carries a location history (k-th declaration of an element = its k-th location); the renderer records where it wrote every element; TLC compares the recorded source_contexts of the compiled module with the expected (file, line, column) facts (FrontendTrace.tla Locs action)",
+            "For every generated program (random indentation units incl. tabs, blank and comment lines, re-opened applications and types, multi-file partitions via C04's plans) every application, type, field, endpoint (simple, REST method, event, subscription) and statement must carry exactly one location per declaration, in declaration order, at the file/line/column where the renderer wrote its first character, with end not before start.",
+            "Columns count characters (a tab is one); annotations and parameters are not tracked.",
+            "DESIGN.md §6 C08"),
 }
 
 PENDING = {}
